@@ -43,7 +43,11 @@ fn producer(ws: WriteStream<T>, cmds: Cmds) {
                 for (j, x) in w.slice()[..k].iter_mut().enumerate() {
                     *x = T::from_id(produced + j as u64 + 1);
                 }
-                w.produce(n, &[]);
+                // every committed sample carries one tag: its id
+                let tags: Vec<rustradio::stream::Tag> = (0..n)
+                    .map(|j| rustradio::stream::Tag::new(j, "id", rustradio::stream::TagValue::U64(produced + j as u64 + 1)))
+                    .collect();
+                w.produce(n, &tags);
                 produced += n as u64;
                 emit(json!({"ev": "ret", "op": "put"}));
             }
@@ -77,9 +81,13 @@ fn consumer(rs: ReadStream<T>, cmds: Cmds) {
         let Some(cmd) = cmds.lock().unwrap().pop_front() else { break };
         match cmd["op"].as_str().unwrap() {
             "acqr" => {
-                let (r, _tags) = rs.read_buf().unwrap();
+                let (r, tags) = rs.read_buf().unwrap();
                 let (s, e) = r.verif_range();
-                emit(json!({"ev": "ret", "op": "acqr", "start": s, "len": e - s}));
+                let tl: Vec<Value> = tags
+                    .iter()
+                    .map(|t| json!([t.pos(), match t.val() { rustradio::stream::TagValue::U64(v) => *v as i64, _ => -1 }]))
+                    .collect();
+                emit(json!({"ev": "ret", "op": "acqr", "start": s, "len": e - s, "tags": tl}));
                 win = Some(r);
             }
             "get" => {
